@@ -62,7 +62,15 @@ var latticeG = reg([]*V{
 	fv("maxf32", math.MaxFloat32), fv("-maxf32", -math.MaxFloat32),
 	fv("maxf64", math.MaxFloat64), fv("-maxf64", -math.MaxFloat64),
 	fv("+Inf", math.Inf(1)), fv("-Inf", math.Inf(-1)), fv("NaN", math.NaN()),
+	// integers just beside a float32 rounding midpoint that float64 cannot hold: converting
+	// through float64 first rounds twice (2^60+2^36+1 -> 2^60 instead of 2^60+2^37)
+	iv(1<<60 + 1<<36 + 1), iv(-(1<<60 + 1<<36 + 1)), iv(1<<60 + 3<<36 - 1),
 })
+
+// Wide magnitudes for vector / matrix data: products and sums of these leave every narrower
+// integer type (12*11 > int8, 300*200 > int16, 50000^2 > int32, 2^32*2^32 > int64), so that
+// an accumulator or scratch of the wrong width shows.
+var latticeW = reg([]*V{iv(12), iv(11), iv(300), iv(-200), iv(50000), iv(1 << 32)})
 
 // Extra points for unary operations: documented/classical branch points of the
 // piecewise functions (log1pexp -37/18/33.3, logerfc 0.157/8, lgamma sign changes),
